@@ -433,8 +433,8 @@ func signing(r *ev.Run) {
 		r.Nontrivial(fmt.Sprintf("seq:%v:%v", list, hist))
 	}
 	// default retry configuration (Retries and PerTryTimeout left unset or partly set): a hanging first endpoint must not
-	// eat the caller's whole deadline. Costs ~10 s of retries and backoff, hence thorough only.
-	if r.Thorough() {
+	// eat the caller's whole deadline. Costs ~10 s of retries and backoff (the only slow case of this check).
+	{
 		if c := r.Case("sign-defaults", 0); c != nil {
 			list := []string{ips[0], ips[1]}
 			byIP[ips[0]].Set(func(ctx context.Context, _ *proto.SSHCertificateSigningRequest) (*proto.SSHKey, error) {
